@@ -105,6 +105,36 @@ def run(ctx):
             lid = "c%d_%d" % (k, n)
             lines.append("%s\topen\t%s\t%s\thdr %d;range %s;hdr -;range %s;hdr %d;range %s" % (lid, f, p, n, hn, hn, n, hn))
             meta.append((lid, f, p, hn, n, pr))
+    # xls: the option given at open time (XlsOptions.header_row) must behave exactly like the option
+    # set afterwards, and must be changeable (downwards, and back to the default) afterwards
+    olines, ometa = [], []
+    for k, (f, p, hn) in enumerate(jobs):
+        if f != "xls":
+            continue
+        pr = parse_range(impl0.get("b%d" % k, "panic"))
+        if isinstance(pr, str) or pr is None:
+            continue
+        (sr, _), (er, _), _ = pr
+        kk = ctx.rng.choice(sorted({sr + 1, (sr + er) // 2 + 1, er, er + 1}))
+        jj = ctx.rng.randrange(0, kk) if kk > 0 else 0
+        lid = "o%d" % k
+        olines.append("%s\topen\txls@%d\t%s\trange %s;hdr %d;range %s;hdr -;range %s" % (lid, kk, p, hn, jj, hn, hn))
+        olines.append("%sr\topen\txls\t%s\thdr %d;range %s;hdr %d;range %s;hdr -;range %s" % (lid, p, kk, hn, jj, hn, hn))
+        ometa.append((lid, p, hn, kk, jj))
+    oimpl = ctx.run_impl(olines)
+    for lid, p, hn, kk, jj in ometa:
+        a = (oimpl.get(lid) or "abort").split(";;")
+        r = (oimpl.get(lid + "r") or "abort").split(";;")
+        ctx.traces += 1
+        ctx.count("open_time_option")
+        case = "open xls@%d %s range %s; hdr %d; range; hdr -; range" % (kk, p, vlib.unhexs(hn), jj)
+        if len(a) < 5 or len(r) < 6:
+            ctx.violations.append({"case": case, "expected": "no panic", "actual": ";;".join(a)[:300], "model": "", "what": "the call sequence did not complete"})
+        elif (a[0], a[2], a[4]) != (r[1], r[3], r[5]):
+            ctx.violations.append({"case": case, "expected": ";;".join((r[1], r[3], r[5]))[:400], "actual": ";;".join((a[0], a[2], a[4]))[:400], "model": "",
+                                   "what": "a header row given at open time (XlsOptions) does not behave like the same option set afterwards, or cannot be changed back"})
+        else:
+            ctx.nontrivial("opt|%s|%s|%d|%d" % (p, hn, kk, jj))
     impl = ctx.run_impl(lines)
     mlines = []
     for lid, f, p, hn, n, pr in meta:
